@@ -308,8 +308,12 @@ func (eapAkaPrime *EapAkaPrime) Unmarshal(rawData []byte) error {
 			attr.reserved = valBitsLen
 
 			valBytesLen := valBitsLen / 8
-			totalLen := uint16(attr.length * 4)
-			paddingLen := totalLen - valBytesLen - EapAkaAttrTypeLen - EapAkaAttrLengthLen - EapAkaAttrReservedLen
+			totalLen := int(attr.length) * 4
+			paddingLen := totalLen - int(valBytesLen) - EapAkaAttrTypeLen - EapAkaAttrLengthLen - EapAkaAttrReservedLen
+			if paddingLen < 0 {
+				return errors.Errorf("EAP-AKA' Unmarshal(): %s attribute value of %d bytes exceeds attribute length %d",
+					attr.attrType, valBytesLen, totalLen)
+			}
 
 			attr.value = make([]byte, valBytesLen)
 			n, err = io.ReadFull(bufReader, attr.value)
